@@ -90,6 +90,13 @@ def make_case(rng: random.Random, tier: str, thermal_p=0.25, mod_p=0.2, maxdeps=
     nreac = rng.randint(1, 60 if big else 14)
     net = chem.structural_network(rng, nspec, nreac, extra_isolated=rng.choice([0, 1, 2]), surface=rng.random() < 0.3)
     case = {"net": net, "entry": "api", "indexed": rng.random() < 0.8}
+    if rng.random() < 0.2:
+        # upper-case element spelling with a replacement table (the UCLCHEM example's convention)
+        un = chem.upper_variant(net)
+        if un is not None:
+            net = case["net"] = un
+            case["spelling"] = "upper_replace"
+            thermal_p = 0.0
     if rng.random() < thermal_p:
         case["cooling"] = add_thermal(rng, net)
     if rng.random() < mod_p:
@@ -170,6 +177,8 @@ def tags_of(case) -> set:
         t.add("thermal")
     if case.get("ode_modifier"):
         t.add("ode_modifier")
+    if case.get("spelling"):
+        t.add("spelling_" + case["spelling"])
     if any(s["surface"] for s in case["net"]["species"]):
         t.add("ice_species")
     if case.get("entry") == "files":
@@ -285,10 +294,12 @@ def run_case(case: dict, ctx) -> dict:
         viol.append(violation(kind, f"{w}: {m}", trace=tb))
     for be in backends:
         o = out.get(be)
-        if not o or "runs" not in o:
+        if not o:
             continue
-        for p in o["problems"]:
+        for p in o.get("problems") or []:
             viol.append(violation("slot_binding", f"{be}: {p[0]} {p[1]}", backend=be))
+        if "runs" not in o:
+            continue
         if o["sanitizer"]:
             obs["sanitizer_reports"] += len(o["sanitizer"])
             viol.append(violation("sanitizer_report", f"{be}: {o['sanitizer'][0][:300]}", backend=be, stderr=o.get("stderr_tail")))
